@@ -105,7 +105,7 @@ def check_render(run, info, n_bodies, tag):
     texts = []
     sxs = []
     for k in range(n_bodies):
-        with gen_st.mode(reals=False, decl_typed=False):
+        with gen_st.mode(reals=False):
             g = gen_st.G_(rng, depth=rng.choice([1, 2, 3]), empties=(k % 4 == 0))
             sx, lx = g.body()
         texts.append(gen_prog.render(lx, None))
@@ -270,7 +270,7 @@ def check_render_fbd(run, info, n, tag):
     texts = []
     nostmt = []
     for k in range(n):
-        with gen_st.mode(reals=False, decl_typed=False):
+        with gen_st.mode(reals=False):
             vs, es, ss, lx = gen_st.fbd_body(rng, depth=rng.choice([1, 1, 2]))
         texts.append(gen_prog.render(lx, None))
         nostmt.append(ss == "()")
@@ -367,7 +367,7 @@ def check_render_lib2(run, info, n, tag):
     rng = run.rng
     texts = []
     for k in range(n):
-        with gen_st.mode(reals=False, decl_typed=False):
+        with gen_st.mode(reals=False):
             us, lx = gen_st.lib2_elements(rng, depth=rng.choice([1, 1, 2]))
         if _without_program_edges(us) != us:
             continue                      # the recorded finding: the library does not hold the edge inputs of a program
